@@ -168,6 +168,16 @@ Theorem C16_disappeared_metric_is_reported : forall re d others now st rules s r
 Proof. intros. eapply disappeared_reported; eassumption. Qed.
 Print Assumptions C16_disappeared_metric_is_reported.
 
+(** Steps 5-7, one link (step 5, the analogue of (b) for a label value): a positive matcher [lm] whose selector
+    [metric{lm}] matches no series at any instant of the range grid is reported for that matcher - Bug, or Warning when
+    the metric is in ignoreMetrics - whatever the uptime and the base metric's gaps are. *)
+Theorem C16_matcher_never_matches_is_reported : forall re d now st up base_gaps s lm,
+  0 < set_step st -> 0 <= set_lookback st ->
+  (forall t, In t (probe_points now st) -> instant_match re d t (label_selector s lm) = []) ->
+  step567_one re d now st up base_gaps s lm = MProblems [nonexistent (sev_of st s)].
+Proof. intros. apply matcher_never_matches; assumption. Qed.
+Print Assumptions C16_matcher_never_matches_is_reported.
+
 (** Non-vacuity: a concrete database where the situations occur (premises satisfiable, conclusions computed):
     m0 present now; m1 never there (Bug) although an ALERTING rule is named m1; m2 there for the whole window
     until 3h ago (step 4: Bug). *)
